@@ -65,6 +65,10 @@ def _smoke_fn(layer, proto):
         L.append("    let der = [0u8; 16];")
         L.append("    let skey = &PasetoAsymmetricPrivateKey::<V1, Public>::from(&der[..]);")
         L.append("    let pkey = &PasetoAsymmetricPublicKey::<V1, Public>::from(&der[..]);")
+    # client code whose type-checking rests on inference through a single applicable impl (`x.as_ref()` with one `AsRef` impl): a
+    # feature that adds a second impl for the same type breaks such a client although the crate itself still builds
+    L.append("    let _: usize = skey.as_ref().len() + pkey.as_ref().len() + Footer::from(\"f\").as_ref().len() + Payload::from(\"{}\").as_ref().len()"
+             " + ImplicitAssertion::from(\"a\").as_ref().len() + Key::<32>::from([7u8; 32]).as_ref().len();")
     if layer == "core":
         b = "    let token: String = Paseto::<%s, %s>::builder().set_payload(Payload::from(\"{}\")).set_footer(Footer::from(\"f\"))" % (v, P)
         if ia:
@@ -73,6 +77,7 @@ def _smoke_fn(layer, proto):
             n = 24 if v == "V2" else 32
             L.append("    let n = Key::<%d>::try_new_random()?;" % n)
             L.append("    let nonce = PasetoNonce::<%s, Local>::from(&n);" % v)
+            L.append("    let _: usize = nonce.as_ref().len();")
             b += ".try_encrypt(skey, &nonce)?;"
         else:
             b += ".try_sign(skey)?;"
